@@ -192,6 +192,12 @@ class Executor:
             return 8
         raise Unsupported('sizeof %r' % (ty,))
 
+    def storesize(self, ty):
+        ty = self.resolve(ty)
+        if ty == ('float', 'f80'):
+            return 10
+        return self.sizeof(ty)
+
     def alignof(self, ty):
         ty = self.resolve(ty)
         k = ty[0]
@@ -290,7 +296,7 @@ class Executor:
             return
         if k in ('int', 'float', 'ptr'):
             val = self.const_value(st, ty, v)
-            reg.cells[off] = (self.sizeof(ty), self.tt(ty), val)
+            reg.cells[off] = (self.storesize(ty), self.tt(ty), val)
             return
         if k == 'array':
             es = self.sizeof(ty[2])
@@ -439,7 +445,7 @@ class Executor:
         if k == 'struct':
             offs, _ = self.layout(ty)
             return ('agg', [self.load(st, Ptr(p.region, p.off + o), e) for o, e in zip(offs, ty[2])])
-        n = self.sizeof(ty)
+        n = self.storesize(ty)
         reg = self.check_access(st, p, n, 'load')
         if reg is None:
             return self.fresh_garbage(ty)
@@ -448,7 +454,7 @@ class Executor:
         if c is not None and c[0] == n:
             return self.convert_cell(c, want, st)
         # assemble from several cells / part of a cell (bytes)
-        bits = self.read_bits(st, reg, p.off, n if want != 'f80' else 10)
+        bits = self.read_bits(st, reg, p.off, n)
         if bits is None:
             st.ub.append(('read of uninitialised memory', '%s+%d (%s)' % (reg.name, p.off, want)))
             return self.fresh_garbage(ty)
@@ -558,7 +564,7 @@ class Executor:
             for i, (o, e) in enumerate(zip(offs, ty[2])):
                 self.store(st, Ptr(p.region, p.off + o), e, val[1][i] if val is not UNDEF else UNDEF)
             return
-        n = self.sizeof(ty)
+        n = self.storesize(ty)
         reg = self.check_access(st, p, n, 'store')
         if reg is None:
             return
